@@ -58,7 +58,9 @@ def _build_map(cls, rows, auto_group=True, opts=None):
     """rows: [[chr, phy, gen, tag]] -> map object of the requested class.
     opts: chr_dt / phy_dt (integer dtypes of the label / position arrays), strided (non-contiguous input arrays),
     names_none (extended map without vrnt_name / vrnt_fncode), no_spline (auto_build_spline=False),
-    via = ctor | pandas | pandas_cM (factory from_pandas, genetic positions in Morgans / centiMorgans)"""
+    via = ctor | pandas | pandas_cM (factory from_pandas, genetic positions in Morgans / centiMorgans) | pandas_ix
+    (columns by integer position, arbitrary row labels) | csv (from_csv) | egmap (ExtendedGeneticMap.from_egmap),
+    units = spelling of vrnt_genpos_units (M, Morgans, cM, centiMorgans)"""
     m = _mods()
     o = opts or {}
     chr_ = numpy.array([r[0] for r in rows], dtype=o.get("chr_dt", "int64"))
@@ -74,18 +76,45 @@ def _build_map(cls, rows, auto_group=True, opts=None):
     if o.get("no_spline"):
         kw["auto_build_spline"] = False
     via = o.get("via", "ctor")
-    if via != "ctor":
+    units = o.get("units")          # spelling of the unit argument: M / Morgans / cM / centiMorgans
+    if via in ("pandas", "pandas_cM", "pandas_ix", "csv", "egmap"):
+        import io
         import pandas
-        cm = via == "pandas_cM"
+        cm = via == "pandas_cM" or (units in ("cM", "centiMorgans") and via != "egmap")
         cols = {"chr": chr_, "pos": phy, "cM": gen * 100.0 if cm else gen}
-        kw["vrnt_genpos_units"] = "cM" if cm else "M"
+        kw["vrnt_genpos_units"] = units or ("cM" if cm else "M")
         if cls == "ext":
-            cols["stop"] = stop
+            cols = {"chr": chr_, "pos": phy, "stop": stop, "cM": gen * 100.0 if cm else gen}
             if name is not None:
                 cols["name"], cols["fncode"] = name, fncode
                 kw["vrnt_name_col"], kw["vrnt_fncode_col"] = "name", "fncode"
-            return m["egm"].ExtendedGeneticMap.from_pandas(pandas.DataFrame(cols), **kw)
-        return m["sgm"].StandardGeneticMap.from_pandas(pandas.DataFrame(cols), **kw)
+        df = pandas.DataFrame(cols)
+        klass = m["egm"].ExtendedGeneticMap if cls == "ext" else m["sgm"].StandardGeneticMap
+        if via == "pandas_ix":
+            # columns addressed by INTEGER position (an unrelated column in front), row labels that are not 0..n-1
+            df.insert(0, "junk", numpy.arange(len(df))[::-1] * 3 + 1)
+            df.index = [(7 * i + 3) % max(1, len(df)) + 100 * (i % 2) for i in range(len(df))]
+            names = list(df.columns)
+            for key, col in (("vrnt_chrgrp_col", "chr"), ("vrnt_phypos_col", "pos"), ("vrnt_stop_col", "stop"),
+                             ("vrnt_genpos_col", "cM"), ("vrnt_name_col", "name"), ("vrnt_fncode_col", "fncode")):
+                if col in names:
+                    kw[key] = names.index(col)
+            return klass.from_pandas(df, **kw)
+        if via == "csv":
+            # the documented file layout, read through from_csv (file-like object; exact decimal text of the doubles)
+            txt = df.to_csv(index=False, float_format="%.17g", sep=";")
+            return klass.from_csv(io.StringIO(txt), sep=";", **kw)
+        if via == "egmap":
+            # .egmap: tab separated, fixed column order, optional mkr_name / map_fncode columns, Morgans
+            ren = {"chr": "chr_grp", "pos": "chr_start", "stop": "chr_stop", "cM": "map_pos", "name": "mkr_name",
+                   "fncode": "map_fncode"}
+            txt = df.rename(columns=ren).to_csv(index=False, float_format="%.17g", sep="\t")
+            kw2 = {kk: vv for kk, vv in kw.items() if kk in ("auto_group", "auto_build_spline")}
+            return klass.from_egmap(io.StringIO(txt), **kw2)
+        return klass.from_pandas(df, **kw)
+    if units:
+        gen = gen * 100.0 if units in ("cM", "centiMorgans") else gen
+        kw["vrnt_genpos_units"] = units
     if cls == "std":
         return m["sgm"].StandardGeneticMap(chr_, phy, gen, **kw)
     return m["egm"].ExtendedGeneticMap(chr_, phy, stop, gen, vrnt_name=name, vrnt_fncode=fncode, **kw)
@@ -143,26 +172,30 @@ def _contiguous(chr_):
 class C11(Prop):
     PID = "C11"
     MODULE = "PybropsModel.Props.C11"
-    N_QUICK = 1000
-    N_THOROUGH = 12000
-    RULE = ("maps with 1-5 chromosomes (arbitrary integer labels) x 2-8 markers, distinct integer physical "
+    N_QUICK = 600          # (+ ~120 corpus cases; every class of inputs has pinned corpus cases, the self-test runs 60 mutants)
+    N_THOROUGH = 6000
+    RULE = ("maps with 1-5 chromosomes (arbitrary integer labels, incl. adjacent labels of large magnitude 1000001/1000002 "
+            "and 2^53 / 2^53+1) x 2-8 markers (6% of chromosomes with ONE genetic position), distinct integer physical "
             "positions per chromosome (shared across chromosomes; common offsets 1e9 / 4e9 or per-chromosome magnitudes "
             "0 .. 1e15), dyadic genetic positions with steps 2^-6 .. 2^-30 (70% congruent, with ties; 30% not), rows "
             "shuffled / chromosome blocks ascending with rows shuffled inside / sorted / reversed, both map classes, "
             "auto_group on/off, constructor argument forms (integer dtypes uint8..uint64 / int8..int32, non-contiguous "
-            "arrays, from_pandas in M / cM, vrnt_name = vrnt_fncode = None, auto_build_spline off); queries at knots, "
+            "arrays, from_pandas in M / cM / with integer column positions and arbitrary row labels, from_csv, from_egmap, "
+            "units spelled Morgans / centiMorgans / cM, vrnt_name = vrnt_fncode = None, auto_build_spline off); queries at knots, "
             "strictly between flanking markers, outside the range, on absent chromosomes, as int32 / uint arrays, the "
             "same array edited in place and asked again; distance arrays with 1-4 chromosome runs (labels 0, negative, "
             "> 65535; tiny steps on offsets 25000 / 1e9), optional NaN positions, python slice bounds (negative, beyond "
             "the end) for gdist1g/2g/1p/2p; map-function arguments 0, 1e-12 .. 1e-2 around 1e-8 / 1e-5 / 1e-4, dyadic, "
-            "large, inf, as 1-D / column / non-contiguous / Fortran-ordered 2-D arrays and 0-d scalars; histories of 1-6 "
+            "large (178, 355, 700, 1e4, 1e300, 1.5e308), inf, as 1-D / column / non-contiguous / Fortran-ordered 2-D arrays, 0-d "
+            "scalars, integer arrays, empty arrays; histories of 1-6 "
             "calls on ONE map object (remove / select by index array, negative indices, boolean mask, slice incl. "
-            "negative step, int, python list; remove_discrepancies; prune; build_spline; group / ungroup / reorder; "
-            "re-assignment of vrnt_phypos / vrnt_genpos; copy / deepcopy; interp_gmap, continuing on the DERIVED map) with "
+            "negative step, int, python list; remove_discrepancies; prune; build_spline; group / ungroup / reorder / sort with and "
+            "without keys; re-assignment AND in-place edit of vrnt_phypos / vrnt_genpos; copy / deepcopy; interp_gmap, continuing "
+            "on the DERIVED map, also derived maps shorter than their parent) with "
             "every law re-checked after every call on the object as it stands and, at the end, on the objects copies / "
             "derived maps were taken from; genotype matrices (phased/unphased) grouped by the real group_vrnt, 70% with "
             "1-4 placements on TWO maps / map functions on the same object, then a second matrix placed on the same "
-            "maps; two maps with > 1024 markers.  "
+            "maps; empty query / variant sets; two maps with > 1024 markers, one with 280 chromosomes.  "
             "Non-trivial = mapfn case with >= 3 distinct distances incl. a positive finite one; gdist case "
             "with >= 2 runs and a run of >= 3 markers; interp case with shuffled rows and a query strictly "
             "between two markers; edit case with an editing call and >= 2 calls; xoprob case with >= 2 chromosomes and a "
@@ -173,8 +206,12 @@ class C11(Prop):
                "DenseVariantMatrix.group_vrnt (property C03) is used as is to group the genotype matrix",
                "numpy fancy / boolean / slice indexing and numpy.delete: the harness resolves every index form to the "
                "list of non-negative indices the model takes",
-               "the two maps with > 1024 markers are judged in numpy (exact: integer / dyadic data) against the same "
-               "clauses, not through the Lean driver"]
+               "the three large maps (> 1024 markers, 280 chromosomes) are judged in numpy (exact: integer / dyadic data) "
+               "against the same clauses, not through the Lean driver",
+               "pandas.read_csv / DataFrame.to_numpy for the from_csv / from_egmap / from_pandas forms (17 significant digits: "
+               "the doubles round-trip exactly)",
+               "derived maps (interp_gmap): the model continues on the implementation's doubles wherever they are within the "
+               "float tolerance of its exact positions (ties of exact values can be split by an ulp in binary64)"]
     ASSUMPTIONS = ["genetic positions are dyadic rationals, physical positions integers < 2^53: float results are "
                    "within 1e-9 of the exact rational model",
                    "gdist1g/gdist1p are called on label arrays whose equal labels are contiguous (documented "
@@ -183,9 +220,7 @@ class C11(Prop):
                    "round trip invmapfn(mapfn d): demanded to 1e-13 + 4*2^-50*3^ceil(kappa d) absolute or 1e-9 relative "
                    "(kappa = 2 Haldane, 4 Kosambi), the conditioning bound proved in mapfn_roundtrip_conditioning / "
                    "mapfn_rounded_roundtrip for float mapfn and invmapfn accurate to 8 ulp of 1; "
-                   "nothing is demanded once 4*2^-50*3^ceil(kappa d) > 1 (d > 15 M / 7.5 M) except d = inf",
-                   "D110 (interp_gmap copies the parent's group metadata): the model mirrors the code as is AND its "
-                   "repaired form; which one applies is read off the implementation (derived.is_grouped())"]
+                   "nothing is demanded once 4*2^-50*3^ceil(kappa d) > 1 (d > 15 M / 7.5 M) except d = inf"]
 
     # ------------------------------------------------------------------ generation
     def _gen_mopts(self, rng, cls):
@@ -200,8 +235,12 @@ class C11(Prop):
                 o["chr_dt"] = rng.choice(["uint8", "int8", "uint16", "int32", "uint64"])
         elif u < 0.6:
             o["strided"] = True
-        elif u < 0.8:
-            o["via"] = rng.choice(["pandas", "pandas_cM"])
+        elif u < 0.85:
+            o["via"] = rng.choice(["pandas", "pandas_cM", "pandas_ix", "pandas_ix", "csv"] + (["egmap"] if cls == "ext" else []))
+            if o["via"] not in ("pandas_cM", "egmap") and rng.random() < 0.4:
+                o["units"] = rng.choice(["Morgans", "centiMorgans", "cM"])
+        elif u < 0.92:
+            o["units"] = rng.choice(["Morgans", "centiMorgans", "cM"])      # constructor called with a unit spelled out
         if cls == "ext" and rng.random() < 0.3:
             o["names_none"] = True
         return o or None
@@ -213,6 +252,9 @@ class C11(Prop):
         mo = mopts or {}
         nchr = nchr or rng.choice([1, 2, 2, 3, 3, 4, 5])
         pool = [-2, 0, 1, 2, 3, 4, 5, 7, 9, 12, 20]
+        if mo.get("chr_dt", "int64") == "int64":
+            # adjacent labels of large magnitude (equal under a relative tolerance / after conversion to float)
+            pool += [1000001, 1000002, 2 ** 53, 2 ** 53 + 1]
         if str(mo.get("chr_dt", "int64")).startswith("u"):
             pool = [c for c in pool if c >= 0]
         labels = list(labels) if labels is not None else rng.sample(pool, nchr)
@@ -227,7 +269,7 @@ class C11(Prop):
         # (no common genetic offset here: interpolating 25000 + tiny steps at non-knots loses the steps to
         # rounding, which is a property of binary64, not of the code; offsets are exercised in the gdist kind)
         gscale = rng.choice([64, 64, 64, 64, 2 ** 17, 2 ** 27, 2 ** 30])
-        if mo.get("via") == "pandas_cM":
+        if mo.get("via") == "pandas_cM" or mo.get("units") in ("cM", "centiMorgans"):
             gscale = 64
         goff = 0
         if plain:
@@ -252,7 +294,9 @@ class C11(Prop):
                     # a WIDE chromosome: some of its markers near the origin, the others at the offset
                     kk = rng.randint(1, nm - 1)
                     phys = sorted([x - off for x in phys[:kk]] + phys[kk:])
-            if congruent:
+            if rng.random() < 0.06:
+                g = [rng.randint(0, 192)] * nm          # a chromosome with ONE genetic position (no recombination)
+            elif congruent:
                 g = sorted(rng.randint(0, 192) for _ in range(nm))
                 if rng.random() < 0.6:
                     g = sorted(set(g))
@@ -303,6 +347,8 @@ class C11(Prop):
     def _gen_queries(self, rng, rows, nq=None, sort=False):
         chrs = sorted({r[0] for r in rows})
         absent = [c for c in [0, 1, 2, 3, 6, 8, 11, 30, -1] if c not in chrs]
+        if max(chrs) > 10 ** 6:
+            absent += [c for c in (1000000, 1000003, 2 ** 53 - 1, 2 ** 53 + 2) if c not in chrs]
         nq = nq or rng.randint(1, 12)
         q = []
         for _ in range(nq):
@@ -417,16 +463,21 @@ class C11(Prop):
                             "M": None if mode == "nt" else canon.enc(Fraction(rng.choice([1, 2, 4, 8, 16, 48]), 16))})
                 n_est = 0
             elif w < 0.75:
-                ops.append({"op": "assign", "mode": rng.choice(["gen_affine", "phy_reflect", "phy_rotate", "gen_reverse"])})
+                ops.append({"op": "assign", "mode": rng.choice(["gen_affine", "phy_reflect", "phy_rotate", "gen_reverse",
+                                                                "gen_inplace", "phy_inplace"])})
                 if rng.random() < 0.7:
                     ops.append({"op": "build"})
             elif w < 0.82:
                 ops.append({"op": "copy", "deep": rng.random() < 0.5})
-            elif w < 0.86:
+            elif w < 0.85:
                 ops.append({"op": "group"})
-            elif w < 0.9:
-                if n_est > 1 and rng.random() < 0.7:
+            elif w < 0.93:
+                v = rng.random()
+                if n_est > 1 and v < 0.5:
                     ops.append({"op": "reorder", "idx": rng.sample(range(n_est), n_est)})
+                elif v < 0.8:
+                    # sort(): default keys, or explicit keys (one array / a tuple, last key primary)
+                    ops.append({"op": "sort", "keys": rng.choice([None, None, "phy", "gen_desc_chr", "chr_desc"])})
                 else:
                     ops.append({"op": "ungroup"})
             else:
@@ -538,11 +589,17 @@ class C11(Prop):
             out.append({"kind": "interp", "cls": cls, "auto_group": True, "rows": rows_u, "mopts": mo,
                         "perm": [6, 2, 5, 0, 3, 7, 1, 4], "qchr": [1, 1, 1, 2, 2, 2, 3], "qphy": [150, 275, 390, 150, 275, 400, 7],
                         "qsorted": True})
-        # D110: derived map shorter than its parent -> interp_genpos of the derived map raises
+        # regression of D110 (fixed): derived map shorter than its parent.  Before the repair interp_gmap copied the
+        # parent's group metadata and interp_genpos / remove_discrepancies of the derived map raised; must PASS now
         rows_p = [[1, 10, 0, 0], [1, 20, "1/8", 1], [1, 30, "1/4", 2], [2, 10, 0, 3], [2, 20, "3/8", 4], [2, 30, "1/2", 5]]
         for cls in ("std", "ext"):
             out.append({"kind": "edit", "cls": cls, "auto_group": True, "rows": rows_p,
                         "ops": [{"op": "interp_gmap", "qchr": [1, 1, 2, 2, 2], "qphy": [12, 25, 11, 15, 28]}],
+                        "qchr": [1, 2], "qphy": [15, 25]})
+            out.append({"kind": "edit", "cls": cls, "auto_group": True, "rows": rows_p,
+                        "ops": [{"op": "interp_gmap", "qchr": [2, 1, 2, 1], "qphy": [28, 25, 11, 12]}, {"op": "rd"},
+                                {"op": "build"}, {"op": "interp_gmap", "qchr": [1, 1, 1, 2, 2], "qphy": [13, 14, 24, 12, 27]},
+                                {"op": "rd"}],
                         "qchr": [1, 2], "qphy": [15, 25]})
         # derived maps at least as long as the parent (nothing raises): rebuilt spline, regrouping, editing, all laws
         rows_q = [[2, 250, "5/16", 0], [1, 300, "1/2", 1], [1, 100, 0, 2], [2, 100, 0, 3], [1, 400, "5/8", 4],
@@ -574,9 +631,57 @@ class C11(Prop):
                                 {"op": "remove", "idx": [2], "form": "int"}, {"op": "build"},
                                 {"op": "select", "idx": [0, 1, 3, 4], "form": "pylist"}, {"op": "build"}],
                         "qchr": [1, 2], "qphy": [160, 200]})
+        # ---- round 4 -------------------------------------------------------------------------------------
+        for cls in ("std", "ext"):
+            # in-place edits of the position arrays (no setter call) followed by build_spline; sort() with / without keys
+            out.append({"kind": "edit", "cls": cls, "auto_group": True, "rows": rows_q,
+                        "ops": [{"op": "assign", "mode": "gen_inplace"}, {"op": "build"}, {"op": "assign", "mode": "phy_inplace"},
+                                {"op": "build"}, {"op": "sort", "keys": "chr_desc"}, {"op": "build"}, {"op": "sort", "keys": None},
+                                {"op": "rd"}, {"op": "build"}],
+                        "qchr": [1, 2], "qphy": [160, 200]})
+            # factories and unit spellings
+            for mo in ({"via": "pandas_ix"}, {"via": "csv", "units": "centiMorgans"}, {"units": "centiMorgans"},
+                       {"units": "Morgans", "no_spline": True}) + (({"via": "egmap"},) if cls == "ext" else ()):
+                out.append({"kind": "edit", "cls": cls, "auto_group": True, "rows": rows_u, "mopts": mo,
+                            "ops": [{"op": "build"}, {"op": "remove", "idx": [1, 6], "form": "list"}, {"op": "build"}],
+                            "qchr": [1, 2, 3], "qphy": [150, 275, 7]})
+            # adjacent chromosome labels of large magnitude; a chromosome without recombination (one genetic position)
+            rows_l = [[1000002, 30, "1/2", 0], [1000001, 10, "1/8", 1], [1000001, 20, "1/4", 2], [1000002, 10, 0, 3],
+                      [2 ** 53 + 1, 5, 1, 4], [2 ** 53, 5, 0, 5], [2 ** 53 + 1, 9, 2, 6], [2 ** 53, 7, "1/2", 7],
+                      [3, 11, "3/4", 8], [3, 19, "3/4", 9], [3, 15, "3/4", 10]]
+            out.append({"kind": "interp", "cls": cls, "auto_group": True, "rows": rows_l,
+                        "perm": [10, 9, 8, 7, 6, 5, 4, 3, 2, 1, 0],
+                        "qchr": [1000001, 1000001, 1000002, 1000003, 2 ** 53, 2 ** 53 + 1, 2 ** 53 + 2, 3, 3],
+                        "qphy": [10, 15, 20, 10, 6, 6, 6, 13, 25], "qsorted": False})
+            out.append({"kind": "gdist", "cls": cls, "chr": [1000001, 1000001, 1000002, 2 ** 53, 2 ** 53 + 1, 2 ** 53 + 1],
+                        "gen": [0, "1/4", "1/2", "1/8", "1/4", 1], "slices": None})
+        for fn in ("haldane", "kosambi"):
+            out.append({"kind": "mapfn", "fn": fn, "d": [0, 15, 40, 177, 178, 355, 400, 710, 10 ** 4,
+                                                          canon.enc(Fraction(float(1e300))), canon.enc(Fraction(float(1.5e308))), "inf"]})
+        # the optional window arguments of gdist1p / gdist2p (start inside the array, negative stop) on sorted queries
+        for cls in ("std", "ext"):
+            for ps in ({"ast": 3, "asp": None, "rst": 2, "rsp": 6, "cst": 1, "csp": -1},
+                       {"ast": None, "asp": -2, "rst": 4, "rsp": None, "cst": None, "csp": 3}):
+                out.append({"kind": "interp", "cls": cls, "auto_group": True, "rows": rows_u, "perm": [6, 2, 5, 0, 3, 7, 1, 4],
+                            "qchr": [1, 1, 1, 1, 2, 2, 2], "qphy": [100, 150, 275, 390, 150, 275, 400], "qsorted": True,
+                            "pslices": ps})
+        # empty inputs ("all query marker sets" includes the empty one) and integer-typed distances
+        for cls in ("std", "ext"):
+            out.append({"kind": "gdist", "cls": cls, "chr": [], "gen": [], "slices": None})
+            out.append({"kind": "gdist", "cls": cls, "chr": [], "gen": [],
+                        "slices": {"ast": 0, "asp": None, "rst": None, "rsp": 3, "cst": -1, "csp": None}})
+            out.append({"kind": "interp", "cls": cls, "auto_group": True, "rows": rows_d, "perm": [5, 3, 1, 0, 2, 4],
+                        "qchr": [], "qphy": [], "qsorted": True})
+            out.append({"kind": "xoprob", "cls": cls, "fn": "haldane", "phased": cls == "std", "rows": rows_d,
+                        "mchr": [], "mphy": []})
+        for fn in ("haldane", "kosambi"):
+            out.append({"kind": "mapfn", "fn": fn, "d": []})
+            out.append({"kind": "mapfn", "fn": fn, "d": [0, 1, 2, 3, 7, 20, 700], "form": "int"})
         # sizes past 1024 markers per map / per chromosome
         out.append({"kind": "big", "cls": "std", "counts": [700, 420], "seed": 7, "fn": "haldane"})
         out.append({"kind": "big", "cls": "ext", "counts": [130, 1100], "seed": 8, "fn": "kosambi", "mopts": {"phy_dt": "uint32"}})
+        # more than 127 / 255 chromosomes
+        out.append({"kind": "big", "cls": "std", "counts": [2, 3] * 140, "seed": 9, "fn": "kosambi"})
         return out
 
     def generate(self, rng, n, tier):
@@ -587,7 +692,7 @@ class C11(Prop):
             if u < 0.15:
                 pool = [0, 0, Fraction(1, 2 ** 40), Fraction(1, 1024), Fraction(1, 64), Fraction(1, 8), Fraction(1, 4),
                         Fraction(1, 2), 1, Fraction(3, 2), 2, 3, Fraction(9, 2), 6, 7, Fraction(15, 2), 10, 12, 14, 15,
-                        20, 40, 700, "inf"]
+                        20, 40, 178, 355, 700, 710, 10 ** 4, Fraction(float(1e300)), Fraction(float(1.5e308)), "inf"]
                 # magnitudes around the thresholds of tolerance-style shortcuts (1e-8, 1e-5, 1e-4, 1e-3), as the
                 # doubles nearest to the decimal values and as neighbouring dyadics
                 tiny = [Fraction(float(x)) for x in (1e-12, 1e-8, 9.9e-9, 1e-6, 5e-6, 1e-5, 2e-5, 5e-5, 9.9e-5, 9.99999e-5,
@@ -603,9 +708,13 @@ class C11(Prop):
                 out.append({"kind": "mapfn", "fn": rng.choice(["haldane", "kosambi"]),
                             "d": [x if isinstance(x, str) else canon.enc(Fraction(x)) for x in d],
                             **({"form": rng.choice(["col", "strided", "fortran", "scalar"])} if rng.random() < 0.35 else {})})
+                if rng.random() < 0.06:
+                    out[-1] = {"kind": "mapfn", "fn": out[-1]["fn"], "form": "int",
+                               "d": [rng.choice([0, 0, 1, 1, 2, 3, 5, 7, 12, 20, 40, 178, 700]) for _ in range(rng.randint(1, 8))]}
             elif u < 0.35:
                 nrun = rng.choice([1, 2, 2, 3, 4])
-                labels = rng.sample([-7, -1, 0, 0, 1, 2, 3, 5, 8, 13, 255, 70000], nrun)
+                labels = rng.sample([-7, -1, 0, 0, 1, 2, 3, 5, 8, 13, 255, 70000, 1000001, 1000002, 2 ** 53,
+                                     2 ** 53 + 1], nrun)
                 labels = list(dict.fromkeys(labels)) or [0]
                 if rng.random() < 0.7:
                     labels.sort()
@@ -643,7 +752,8 @@ class C11(Prop):
                         gc["chr"] = [abs(c) for c in chr_]
                     if gc["aopts"]["chr_dt"].endswith("int8"):
                         gc["chr"] = [c % 100 for c in gc["chr"]]
-                    if not _contiguous(chr_) or not _contiguous(gc["chr"]):
+                    if not _contiguous(chr_) or not _contiguous(gc["chr"]) or (
+                            gc["aopts"]["chr_dt"] == "int32" and max(abs(c) for c in gc["chr"]) >= 2 ** 31):
                         gc["chr"] = chr_
                         gc["aopts"]["chr_dt"] = "int64"
                 out.append(gc)
@@ -757,6 +867,8 @@ class C11(Prop):
                 k_ = len(d)
                 ix = (numpy.arange(k_)[:, None] + 2 * numpy.arange(k_ + 1)[None, :]) % k_     # k x (k+1), not symmetric
                 d = numpy.asfortranarray(d[ix])
+            elif form == "int":
+                d = d.astype("int64")          # integer-valued distances in an integer array
             d0 = d.copy()
             if form == "scalar":
                 r = numpy.array([fn.mapfn(numpy.float64(x)) for x in d], dtype=float)
@@ -782,11 +894,14 @@ class C11(Prop):
             gen = numpy.array([_f(x) for x in case["gen"]], dtype=float)
             if ao.get("strided") and len(chr_):
                 chr_, gen = _strided(chr_), _strided(gen)
+            chr0, gen0 = chr_.copy(), gen.copy()
             obs = {"d1": canon.enc(g.gdist1g(chr_, gen)), "d2": canon.enc(g.gdist2g(chr_, gen))}
             sl = case.get("slices")
             if sl:
                 obs["d1s"] = canon.enc(g.gdist1g(chr_, gen, sl["ast"], sl["asp"]))
                 obs["d2s"] = canon.enc(g.gdist2g(chr_, gen, sl["rst"], sl["rsp"], sl["cst"], sl["csp"]))
+            # the arrays the caller handed in still hold what the distances were computed from
+            obs["input_untouched"] = bool(numpy.array_equal(chr_, chr0) and numpy.array_equal(gen, gen0, equal_nan=True))
             return obs
         if k == "interp":
             rows = case["rows"]
@@ -842,14 +957,19 @@ class C11(Prop):
             g.interp_genpos(qchr, qmut)
             qmut += 1
             obs["out_inplace"] = canon.enc(g.interp_genpos(qchr, qmut))
-            # distances of the stored map itself
+            # the object as it stands after all these read-only calls, asked at ITS OWN stored markers
+            end_rows, _ = _stored(case["cls"], g)
+            obs["own_end"] = {"stored": [r[2] for r in end_rows],
+                              "out": canon.enc(g.interp_genpos(g.vrnt_chrgrp.copy(), g.vrnt_phypos.copy()))}
             # distances of the stored map itself (the constructor grouped it, so its own label array must
             # meet the precondition of gdist1g)
             if case["auto_group"]:
                 g3 = _build_map(case["cls"], rows, True, mo)
+                obs["stored3"] = _stored(case["cls"], g3)[0]
                 obs["d1_stored"] = canon.enc(g3.gdist1g(g3.vrnt_chrgrp, g3.vrnt_genpos))
                 obs["d2_stored"] = canon.enc(g3.gdist2g(g3.vrnt_chrgrp, g3.vrnt_genpos))
-                obs["stored3"] = _stored(case["cls"], g3)[0]
+                # (the map's own arrays were handed in: they must still hold the map)
+                obs["stored3_untouched"] = _stored(case["cls"], g3)[0] == obs["stored3"]
             return obs
         if k == "spline":
             def build(rows):
@@ -929,7 +1049,18 @@ class C11(Prop):
             after = snap()
             alias_ok = after == snaps[-1]
             gp = g.interp_genpos(qc, qp)
-            return {"qchr": canon.enc(qc), "qphy": canon.enc(qp), "snaps": snaps, "alias_ok": alias_ok,
+            # the four rprob wrappers are BY DEFINITION the map function of the corresponding distance arrays: compared
+            # with what the same objects return for mapfn(gdist..) (both sides are implementation outputs)
+            rbad = []
+            with numpy.errstate(all="ignore"):
+                for nm_, got, dist in (("rprob1p", fn.rprob1p(g, qc, qp), g.gdist1p(qc, qp)),
+                                       ("rprob2p", fn.rprob2p(g, qc, qp), g.gdist2p(qc, qp)),
+                                       ("rprob1g", fn.rprob1g(g, qc, gp), g.gdist1g(qc, gp)),
+                                       ("rprob2g", fn.rprob2g(g, qc, gp), g.gdist2g(qc, gp))):
+                    want = fn.mapfn(dist)
+                    if numpy.shape(got) != numpy.shape(want) or not numpy.allclose(got, want, rtol=1e-12, atol=1e-15, equal_nan=True):
+                        rbad.append(nm_)
+            return {"qchr": canon.enc(qc), "qphy": canon.enc(qp), "snaps": snaps, "alias_ok": alias_ok, "rprob_bad": rbad,
                     "genpos": snaps[-1]["genpos"], "xoprob": snaps[-1]["xoprob"],
                     # the four rprob wrappers of the map-function class on the same variants
                     "r1p": canon.enc(fn.rprob1p(g, qc, qp)), "r2p": canon.enc(fn.rprob2p(g, qc, qp)),
@@ -1028,6 +1159,25 @@ class C11(Prop):
                 if sorted(o["idx"]) != list(range(n)):
                     continue
                 g.reorder(numpy.array(o["idx"], dtype=int))
+            elif o["op"] == "sort":
+                kname = o.get("keys")
+                if kname is None:
+                    g.sort()
+                    rec = {"op": "sort"}
+                else:
+                    chr_, phy, gen = g.vrnt_chrgrp, g.vrnt_phypos, g.vrnt_genpos
+                    if kname == "phy":
+                        keys = phy.copy()
+                        klist = [keys]
+                    elif kname == "gen_desc_chr":
+                        keys = (-gen, chr_.copy())
+                        klist = list(keys)
+                    else:
+                        keys = (phy.copy(), -chr_.astype("int64"))
+                        klist = list(keys)
+                    g.sort(keys)
+                    # the model gets the key arrays themselves (numpy.lexsort is modelled: one stable pass per key)
+                    rec = {"op": "sort", "keys": [canon.enc(numpy.asarray(k_)) for k_ in klist]}
             elif o["op"] == "copy":
                 outv, r0 = ask(g, q0)             # (groups an ungrouped map: recorded as a step of its own)
                 snap({"op": "interp", "qchr": [c for c, _ in q0], "qphy": [x for _, x in q0]}, outv, r0)
@@ -1037,6 +1187,13 @@ class C11(Prop):
                 chr_, phy, gen = g.vrnt_chrgrp, g.vrnt_phypos, g.vrnt_genpos
                 tags = [r[3] for r in _stored(cls, g)[0]]
                 new_phy, new_gen = None, None
+
+                def reflect():
+                    # every chromosome reflected inside ITS OWN range (a query at a marker of the edited map stays
+                    # within the range of the spline built before the edit: no extrapolation over many orders of
+                    # magnitude, whose float error is a matter of conditioning, not of the code)
+                    lim = {int(c): (int(phy[chr_ == c].min()), int(phy[chr_ == c].max())) for c in numpy.unique(chr_)}
+                    return numpy.array([lim[int(c)][0] + lim[int(c)][1] - int(x) for c, x in zip(chr_, phy)], dtype=phy.dtype)
                 if o["mode"] == "gen_affine":
                     new_gen = gen * 2.0 + 0.25
                 elif o["mode"] == "gen_reverse":
@@ -1044,8 +1201,23 @@ class C11(Prop):
                     for c in numpy.unique(chr_):
                         new_gen[chr_ == c] = gen[chr_ == c][::-1]
                 elif o["mode"] == "phy_reflect":
-                    lo, hi = int(phy.min()), int(phy.max())
-                    new_phy = numpy.array([hi + lo - int(x) for x in phy], dtype=phy.dtype)
+                    new_phy = reflect()
+                elif o["mode"] == "gen_inplace":
+                    # the SAME array object edited in place (no setter call: what a cache keyed on the array misses)
+                    # (arrays that came out of pandas are read-only views: those are re-assigned instead)
+                    if gen.flags.writeable:
+                        gen *= 2.0
+                        gen += 0.25
+                    else:
+                        new_gen = gen * 2.0 + 0.25
+                elif o["mode"] == "phy_inplace":
+                    refl = reflect()
+                    if phy.flags.writeable and (cls != "ext" or g.vrnt_stop.flags.writeable):
+                        phy[:] = refl
+                        if cls == "ext":
+                            g.vrnt_stop[:] = numpy.array([int(x) + 7 + t for x, t in zip(phy, tags)], dtype=int)
+                    else:
+                        new_phy = refl
                 else:
                     new_phy = phy.copy()
                     for c in numpy.unique(chr_):
@@ -1073,7 +1245,7 @@ class C11(Prop):
                         d = g.interp_gmap(qc, qp, numpy.array([int(x) + 7 + t for x, t in zip(qp, tags)], dtype=int),
                                           vrnt_name=nm, vrnt_fncode=fc)
                     # the derived map is the object the history continues on; the parent must not be affected by it
-                    rec = {**o, "tags": tags, "copies_meta": bool(d.is_grouped())}
+                    rec = {**o, "tags": tags, "impl_gen": canon.enc(d.vrnt_genpos)}
                     outp, rp = ask(g, q0)
                     kept.append((g, _stored(cls, g), _meta(g), outp, rp, built_from))
                     g = d
@@ -1081,7 +1253,7 @@ class C11(Prop):
                     if "spline not built" in str(e):
                         raise
                     raised = type(e).__name__
-                    rec = {**o, "tags": tags, "copies_meta": True}
+                    rec = {**o, "tags": tags}
             else:
                 raise ValueError(o["op"])
             snap(rec, None, raised)
@@ -1252,7 +1424,9 @@ class C11(Prop):
                     # the array edited in place and asked again: the clause at the positions it holds NOW
                     {"op": "c11.spec_interp", "rows": case["rows"], "qchr": case["qchr"],
                      "qphy": [x + 1 for x in case["qphy"]], "out": obs["out_inplace"], "out2": obs["out_inplace"]},
-                    {"op": "c11.gdistp", "rows": case["rows"], **q, **self._norm_pslices(case)}] + (
+                    # (the same with the optional slice arguments; a cheap placeholder keeps the positions when none are given)
+                    ({"op": "c11.gdistp", "rows": case["rows"], **q, **self._norm_pslices(case)} if case.get("pslices")
+                     else {"op": "c11.gdist", "chr": [], "gen": []})] + (
                     # distance clause on the stored arrays of the constructed (grouped) map
                     [{"op": "c11.spec_gdist", "chr": [r[0] for r in obs["stored3"]],
                       "gen": [r[2] for r in obs["stored3"]], "d1": obs["d1_stored"], "d2": obs["d2_stored"]}]
@@ -1344,6 +1518,14 @@ class C11(Prop):
         return (isinstance(a, list) and isinstance(b, list) and len(a) == len(b)
                 and all(canon.close_enc(x, y, rel, abs_) for x, y in zip(a, b)))
 
+    @staticmethod
+    def _same_markers(a, b):
+        """the same markers (chromosome, physical position) with the same genetic positions, in any order"""
+        def key(r):
+            return (r[0], int(Fraction(r[1])))
+        a, b = sorted(a, key=key), sorted(b, key=key)
+        return len(a) == len(b) and all(key(x) == key(y) and canon.close_enc(x[2], y[2], 1e-9, 1e-12) for x, y in zip(a, b))
+
     def judge(self, case, obs, answers):
         k = case["kind"]
         for a in answers:
@@ -1404,6 +1586,8 @@ class C11(Prop):
                     runs.append([c, 1])
             nontriv = len(runs) >= 2 and any(n >= 3 for _, n in runs) and _contiguous(case["chr"])
             spec, sdet = bool(s["ok"]), s["detail"]
+            if not obs.get("input_untouched", True):
+                spec, sdet = False, sdet + "; gdist1g / gdist2g changed the position / label arrays handed in"
             if case.get("slices"):
                 sl = case["slices"]
                 bad = self._slice_law(obs["d1"] if _contiguous(case["chr"]) else None, obs["d2"], obs["d1s"], obs["d2s"], sl,
@@ -1471,6 +1655,13 @@ class C11(Prop):
                 ss = ans[7]
                 detail += "; distances of the stored map: " + ss["detail"]
                 spec = spec and bool(ss["ok"])
+                if not obs.get("stored3_untouched", True):
+                    spec = False
+                    detail += "; gdist1g / gdist2g on the map's own arrays changed the stored map"
+            oe = obs.get("own_end")
+            if oe and not self._close_list(oe["stored"], oe["out"]):
+                spec = False
+                detail += "; after the queries the map, asked at its own markers, does not return its stored positions"
             qs = list(zip(case["qchr"], case["qphy"]))
             between = any(any(r[0] == c and int(r[1]) < x for r in case["rows"]) and
                           any(r[0] == c and int(r[1]) > x for r in case["rows"]) and
@@ -1542,10 +1733,22 @@ class C11(Prop):
                     if not self._close_list(b["out"][k0:k0 + len(b["own_gen"])], b["own_gen"]):
                         clauses.append("derived map: own markers")
                 if b["raised"]:
-                    # a call on a map of the property's domain raised.  It is the recorded defect of interp_gmap when
-                    # the object is a derived map whose (copied) metadata does not describe its own arrays
+                    # a call on a map of the property's domain raised (a crash on a valid input).  Told apart for
+                    # the report: the object carries metadata that do not describe its own arrays (what
+                    # interp_gmap produced before the repair of D110: regression) / anything else
                     stale = b["meta"] is not None and b["meta"] != _true_meta(b["stored"])
-                    clauses.append("stale_metadata_raise" if stale else "raise")
+                    clauses.append(f"{st['op']} raised {b['raised']}" +
+                                   (" on an object whose group metadata do not describe its arrays" if stale else ""))
+            # "none of this depends on the order of the rows": a call that only reorders the rows (reorder, sort,
+            # group, ungroup; interp_genpos / is_congruent group as a side effect; build_spline, copy) leaves every
+            # marker with its genetic position
+            prev = case["rows"]
+            for n, (st, b) in enumerate(zip(obs["done"], obs["snaps"])):
+                if st["op"] in ("reorder", "sort", "group", "ungroup", "interp", "build", "copy") and not b["raised"] \
+                        and not self._same_markers(prev, b["stored"]):
+                    clauses.append(f"step{n}:{st['op']} changed which genetic position belongs to which marker")
+                    break
+                prev = b["stored"]
             if msn and msn[-1]["congruent"] != obs["is_congruent"]:
                 why.append(f"is_congruent {obs['is_congruent']} (model: {msn[-1]['congruent']})")
             if not obs["alias_ok"]:
@@ -1559,9 +1762,8 @@ class C11(Prop):
                 clauses.append("distances")
             if any(not x["ok"] for x in specs[nint + nfin:]):
                 clauses.append("an untouched map no longer obeys the interpolation clause after ANOTHER object was edited")
-            edited = any(st["op"] in ("remove", "select", "rd", "prune", "assign", "interp_gmap", "reorder") for st in obs["done"])
-            if case.get("_shrunk") and clauses and set(clauses) == {"stale_metadata_raise"} and not why:
-                clauses = []          # see shrink(): the recorded defect alone does not keep a shrunk candidate
+            edited = any(st["op"] in ("remove", "select", "rd", "prune", "assign", "interp_gmap", "reorder", "sort")
+                         for st in obs["done"])
             return {"corr": not why, "spec": not clauses, "nontrivial": edited and len(obs["done"]) >= 2,
                     "clauses": clauses, "raise_agree": raise_agree and len(msn) == len(obs["snaps"]),
                     "detail": f"edit[{case['cls']}] spec: {clauses or 'ok'} {[x['detail'] for x in specs if not x['ok']]}; "
@@ -1611,6 +1813,9 @@ class C11(Prop):
             for c in obs["qchr"]:
                 runs[c] = runs.get(c, 0) + 1
             nontriv = len(runs) >= 2 and any(n >= 2 for n in runs.values())
+            if obs.get("rprob_bad"):
+                spec = False
+                sdetail.append(f"{', '.join(obs['rprob_bad'])} is not the map function of the corresponding distances")
             if not obs["alias_ok"]:
                 # the arrays of the matrix satisfied the clause after their placement and were changed by calls
                 # that do not involve the matrix: they no longer are what the clause says
@@ -1626,16 +1831,8 @@ class C11(Prop):
         for key in ("cls", "fn", "auto_group"):
             if key in case:
                 sig[key] = case[key]
-        if case["kind"] == "edit" and isinstance(obs, dict) and "done" in obs:
-            # D110: the only failed clause is "a call raised on a derived map carrying the parent's metadata", the
-            # history does contain an interp_gmap that copied metadata, and the as-is model (literal loop over the
-            # stored metadata) predicts every one of these exceptions at the same call
-            cl = verdict.get("clauses") or []
-            derived = any(st["op"] == "interp_gmap" and st.get("copies_meta") for st in obs["done"])
-            if cl and set(cl) == {"stale_metadata_raise"} and derived and verdict.get("raise_agree"):
-                sig["site"], sig["cond"] = "interp_gmap", "stale_metadata"
-            else:
-                sig["site"], sig["cond"] = "edit", "other"
+        if case["kind"] == "edit":
+            sig["site"] = "edit"
         return sig
 
     # ------------------------------------------------------------------ shrinking
@@ -1662,17 +1859,15 @@ class C11(Prop):
                 if len(case["rows"]) > 2:
                     yield {**case, "rows": case["rows"][:i] + case["rows"][i + 1:]}
         elif k == "edit":
-            # `_shrunk`: a candidate of the shrinker must keep failing for a reason OTHER than the recorded defect
-            # D110 (otherwise every failing history with an interp_gmap would shrink into that defect)
             if case.get("mopts"):
-                yield {**{kk: vv for kk, vv in case.items() if kk != "mopts"}, "_shrunk": True}
+                yield {kk: vv for kk, vv in case.items() if kk != "mopts"}
             for i in range(len(case["ops"])):
                 if len(case["ops"]) > 1:
-                    yield {**case, "ops": case["ops"][:i] + case["ops"][i + 1:], "_shrunk": True}
+                    yield {**case, "ops": case["ops"][:i] + case["ops"][i + 1:]}
             for i in range(len(case["qchr"])):
                 if len(case["qchr"]) > 1:
                     yield {**case, "qchr": case["qchr"][:i] + case["qchr"][i + 1:],
-                           "qphy": case["qphy"][:i] + case["qphy"][i + 1:], "_shrunk": True}
+                           "qphy": case["qphy"][:i] + case["qphy"][i + 1:]}
         elif k in ("interp", "xoprob"):
             qa, qb = ("qchr", "qphy") if k == "interp" else ("mchr", "mphy")
             if k == "xoprob":
@@ -2049,13 +2244,222 @@ class C11(Prop):
         def pair(f_s, f_e):
             return both(f_s, f_e)
 
+
+        # ---- round 4 ---------------------------------------------------------------------------------------
+        import copy as _copy
+
+        def kos_exp_form(self, d):
+            d = numpy.asarray(d, dtype=float)
+            r = numpy.full(d.shape, 0.5)
+            mask = ~numpy.isinf(d)
+            with numpy.errstate(all="ignore"):
+                e4d = numpy.exp(4.0 * d[mask])
+                r[mask] = 0.5 * (e4d - 1.0) / (e4d + 1.0)
+            return r
+
+        def hald_exp_form(self, d):
+            d = numpy.asarray(d, dtype=float)
+            r = numpy.full(d.shape, 0.5)
+            mask = ~numpy.isinf(d)
+            with numpy.errstate(all="ignore"):
+                e2d = numpy.exp(2.0 * d[mask])
+                r[mask] = 0.5 * (e2d - 1.0) / e2d
+            return r
+
+        def hald_exp_in_input_dtype(self, d):
+            d = numpy.asarray(d)
+            return 0.5 * (1.0 - numpy.exp(-2 * d, dtype=d.dtype))
+
+        def gdist1p_window_twice(self, vrnt_chrgrp, vrnt_phypos, ast=None, asp=None):
+            vc, vp = vrnt_chrgrp[ast:asp], vrnt_phypos[ast:asp]
+            return self.gdist1g(vc, self.interp_genpos(vc, vp), ast, asp)
+
+        def gdist2p_rows_only(self, vrnt_chrgrp, vrnt_phypos, rst=None, rsp=None, cst=None, csp=None):
+            gp = numpy.full(len(vrnt_phypos), numpy.nan)
+            gp[rst:rsp] = self.interp_genpos(vrnt_chrgrp[rst:rsp], vrnt_phypos[rst:rsp])
+            return self.gdist2g(vrnt_chrgrp, gp, rst, rsp, cst, csp)
+
+        def mk_build_shortcut(cls_):
+            real = cls_.build_spline
+
+            def build_spline_already_built(self, kind='linear', fill_value='extrapolate', **kw):
+                uniq = numpy.unique(self._vrnt_chrgrp)
+                if (self.has_spline() and self._spline_kind == kind and numpy.array_equal(self._spline_fill_value, fill_value)
+                        and len(self._spline) == len(uniq) and all(grp in self._spline for grp in uniq)):
+                    return
+                real(self, kind, fill_value, **kw)
+            return build_spline_already_built
+
+        def mk_build_id_cache(cls_):
+            real = cls_.build_spline
+
+            def build_spline_cached_per_array(self, kind='linear', fill_value='extrapolate', **kw):
+                key = (id(self._vrnt_chrgrp), id(self._vrnt_phypos), id(self._vrnt_genpos), len(self._vrnt_genpos), kind,
+                       str(fill_value))
+                if getattr(self, "_spline_key", None) == key and self.has_spline():
+                    return
+                real(self, kind, fill_value, **kw)
+                self._spline_key = key
+                self._spline_hold = (self._vrnt_chrgrp, self._vrnt_phypos, self._vrnt_genpos)   # keeps the ids alive
+            return build_spline_cached_per_array
+
+        def gdist2g_labels_isclose(self, vrnt_chrgrp, vrnt_genpos, rst=None, rsp=None, cst=None, csp=None):
+            mi, mj = numpy.meshgrid(vrnt_chrgrp[rst:rsp], vrnt_chrgrp[cst:csp], indexing='ij', sparse=True)
+            gi, gj = numpy.meshgrid(vrnt_genpos[rst:rsp], vrnt_genpos[cst:csp], indexing='ij', sparse=True)
+            out = numpy.abs(gi - gj)
+            out[~numpy.isclose(mi, mj)] = numpy.inf
+            return out
+
+        def gdist2g_labels_as_float(self, vrnt_chrgrp, vrnt_genpos, rst=None, rsp=None, cst=None, csp=None):
+            lab = vrnt_chrgrp.astype(float)
+            mi, mj = numpy.meshgrid(lab[rst:rsp], lab[cst:csp], indexing='ij', sparse=True)
+            gi, gj = numpy.meshgrid(vrnt_genpos[rst:rsp], vrnt_genpos[cst:csp], indexing='ij', sparse=True)
+            out = numpy.abs(gi - gj)
+            out[mi != mj] = numpy.inf
+            return out
+
+        def gdist1g_in_place(self, vrnt_chrgrp, vrnt_genpos, ast=None, asp=None):
+            vc, vg = vrnt_chrgrp[ast:asp], vrnt_genpos[ast:asp]
+            uniq, start, counts = numpy.unique(vc, return_index=True, return_counts=True)
+            out = vg if vg.flags["C_CONTIGUOUS"] and vg.flags.writeable else numpy.empty(vg.shape, dtype=float)
+            for st, sp in zip(start, start + counts):
+                dd = numpy.diff(vg[st:sp])
+                out[st] = numpy.inf
+                out[st + 1:sp] = dd
+            return out
+
+        def gdist1g_first_cell_unconditional(self, vrnt_chrgrp, vrnt_genpos, ast=None, asp=None):
+            out = real_gdist1g(self, vrnt_chrgrp, vrnt_genpos, ast, asp)
+            out[0] = numpy.inf
+            return out
+
+        def mk_group_early(cls_):
+            real = cls_.group
+
+            def group_returns_when_grouped(self, **kw):
+                if self.is_grouped():
+                    return
+                real(self, **kw)
+            return group_returns_when_grouped
+
+        def interp_genpos_falsy_label(self, vrnt_chrgrp, vrnt_phypos):
+            out = numpy.empty(vrnt_phypos.shape, dtype=float)
+            for i, (c, p) in enumerate(zip(vrnt_chrgrp, vrnt_phypos)):
+                model = self._spline.get(c) if c else None
+                out[i] = model(p) if model is not None else numpy.nan
+            return out
+
+        def mk_from_pandas_intcol(cls_):
+            real = cls_.from_pandas.__func__
+
+            def from_pandas_integer_column_by_label(cls2, df, *a_, **kw):
+                # integer column arguments looked up through the ROW labels as well (.loc semantics): rows come out
+                # in label order for the genetic positions only
+                gc = kw.get("vrnt_genpos_col")
+                if isinstance(gc, int):
+                    df = df.copy()
+                    df.iloc[:, gc] = df.iloc[:, gc].sort_index().to_numpy()
+                return real(cls2, df, *a_, **kw)
+            return classmethod(from_pandas_integer_column_by_label)
+
+        def mk_genpos_units_short_only(cls_):
+            prop = cls_.__dict__["vrnt_genpos"]
+
+            def setter(self, value):
+                if isinstance(value, tuple) and value[1] == "centiMorgans":
+                    value = (value[0], "Morgans")          # only the abbreviation "cM" is recognised as centiMorgans
+                prop.fset(self, value)
+            return property(prop.fget, setter)
+
+        def mk_build_255(cls_):
+            def build_spline_first_255_chromosomes(self, kind='linear', fill_value='extrapolate', **kw):
+                self._spline = {}
+                self._spline_kind = kind
+                self._spline_fill_value = fill_value
+                for grp in numpy.unique(self._vrnt_chrgrp)[:255]:
+                    mask = (self._vrnt_chrgrp == grp)
+                    self._spline[grp] = _interp1d(x=self._vrnt_phypos[mask], y=self._vrnt_genpos[mask], kind=kind,
+                                                  fill_value=fill_value, assume_sorted=False)
+            return build_spline_first_255_chromosomes
+
+        def mk_sort_keys_skips_genpos(cls_):
+            real = cls_.sort
+
+            def sort_with_keys_leaves_genpos(self, keys=None):
+                if keys is None:
+                    return real(self, keys)
+                gen = self._vrnt_genpos.copy()
+                real(self, keys)
+                self._vrnt_genpos = gen
+            return sort_with_keys_leaves_genpos
+
+        def mk_interp1d_normalised(mod):
+            real = mod.interp1d
+
+            def interp1d_normalised(x, y, kind='linear', fill_value=numpy.nan, assume_sorted=False, **kw):
+                y = numpy.asarray(y, dtype=float)
+                lo, span = y.min(), y.max() - y.min()
+                with numpy.errstate(all="ignore"):
+                    f = real(x=x, y=(y - lo) / span, kind=kind, fill_value=fill_value, assume_sorted=assume_sorted, **kw)
+                return lambda q: f(q) * span + lo
+            return interp1d_normalised
+
+        def mk_interp_gmap_prerepair(cls_):
+            real = cls_.interp_gmap
+
+            def interp_gmap_copies_parent_metadata(self, vrnt_chrgrp, vrnt_phypos, *a_, **kw):
+                out = real(self, vrnt_chrgrp, vrnt_phypos, *a_, **kw)
+                out.vrnt_chrgrp_name = _copy.deepcopy(self.vrnt_chrgrp_name)
+                out.vrnt_chrgrp_stix = _copy.deepcopy(self.vrnt_chrgrp_stix)
+                out.vrnt_chrgrp_spix = _copy.deepcopy(self.vrnt_chrgrp_spix)
+                out.vrnt_chrgrp_len = _copy.deepcopy(self.vrnt_chrgrp_len)
+                return out
+            return interp_gmap_copies_parent_metadata
+
+        def rprob2p_on_physical_positions(self, gmap, vrnt_chrgrp, vrnt_phypos):
+            return self.mapfn(gmap.gdist2g(vrnt_chrgrp, vrnt_phypos.astype(float) * 1e-8))     # "1 cM per Mb"
+
+        def se(name, mk):
+            return pair(patch(S, name, mk(S)), patch(E, name, mk(E)))
+
+        round4 = [
+            ("r4_interp_gmap_copies_parent_metadata_D110", lambda: se("interp_gmap", mk_interp_gmap_prerepair)),
+            # (the same mechanism in both map-function classes is ONE mutant: both classes are patched together)
+            ("r4_mapfn_exp_form_overflows", lambda: both(patch(K, "mapfn", kos_exp_form), patch(H, "mapfn", hald_exp_form))),
+            ("r4_haldane_exp_in_input_dtype", lambda: patch(H, "mapfn", hald_exp_in_input_dtype)),
+            ("r4_gdist1p_window_applied_twice", lambda: pair(patch(S, "gdist1p", gdist1p_window_twice),
+                                                             patch(E, "gdist1p", gdist1p_window_twice))),
+            ("r4_gdist2p_interpolates_window_rows_only", lambda: pair(patch(S, "gdist2p", gdist2p_rows_only),
+                                                                      patch(E, "gdist2p", gdist2p_rows_only))),
+            ("r4_build_spline_already_built_shortcut", lambda: se("build_spline", mk_build_shortcut)),
+            ("r4_build_spline_cached_per_array_object", lambda: se("build_spline", mk_build_id_cache)),
+            ("r4_gdist2g_labels_isclose", lambda: pair(patch(S, "gdist2g", gdist2g_labels_isclose),
+                                                       patch(E, "gdist2g", gdist2g_labels_isclose))),
+            ("r4_gdist2g_labels_as_float64", lambda: pair(patch(S, "gdist2g", gdist2g_labels_as_float),
+                                                          patch(E, "gdist2g", gdist2g_labels_as_float))),
+            ("r4_gdist1g_in_place_on_callers_array", lambda: pair(patch(S, "gdist1g", gdist1g_in_place),
+                                                                  patch(E, "gdist1g", gdist1g_in_place))),
+            ("r4_gdist1g_raises_on_empty", lambda: pair(patch(S, "gdist1g", gdist1g_first_cell_unconditional),
+                                                        patch(E, "gdist1g", gdist1g_first_cell_unconditional))),
+            ("r4_group_returns_early_when_grouped", lambda: se("group", mk_group_early)),
+            ("r4_interp_genpos_label_zero_missing", lambda: pair(patch(S, "interp_genpos", interp_genpos_falsy_label),
+                                                                 patch(E, "interp_genpos", interp_genpos_falsy_label))),
+            ("r4_from_pandas_integer_column_by_row_label", lambda: se("from_pandas", mk_from_pandas_intcol)),
+            ("r4_units_only_abbreviation_recognised", lambda: se("vrnt_genpos", mk_genpos_units_short_only)),
+            ("r4_build_spline_first_255_chromosomes", lambda: se("build_spline", mk_build_255)),
+            ("r4_sort_with_keys_leaves_genpos", lambda: se("sort", mk_sort_keys_skips_genpos)),
+            ("r4_rprob2p_assumes_uniform_recombination_rate", lambda: both(patch(H, "rprob2p", rprob2p_on_physical_positions),
+                                                                            patch(K, "rprob2p", rprob2p_on_physical_positions))),
+            ("r4_interp1d_on_normalised_positions", lambda: both(patch(m["sgm"], "interp1d", mk_interp1d_normalised(m["sgm"])),
+                                                                 patch(m["egm"], "interp1d", mk_interp1d_normalised(m["egm"])))),
+        ]
+
         round3 = [
             ("r3_build_spline_slices_when_grouped", lambda: pair(patch(S, "build_spline", build_spline_slices_when_grouped),
                                                                  patch(E, "build_spline", build_spline_slices_when_grouped))),
             ("r3_group_fastpath_unsigned_diff", lambda: pair(patch(S, "group", group_fastpath_diff),
                                                              patch(E, "group", group_fastpath_diff))),
-            ("r3_haldane_first_order_below_1e-4", lambda: patch(H, "mapfn", hald_first_order)),
-            ("r3_kosambi_first_order_below_1e-4", lambda: patch(K, "mapfn", kos_first_order)),
+            ("r3_mapfn_first_order_below_1e-4", lambda: both(patch(H, "mapfn", hald_first_order), patch(K, "mapfn", kos_first_order))),
             ("r3_haldane_inverse_clipped_at_1e-12", lambda: patch(H, "invmapfn", hald_inv_clip)),
             ("r3_gdist2g_isclose_to_zero", lambda: pair(patch(S, "gdist2g", gdist2g_isclose), patch(E, "gdist2g", gdist2g_isclose))),
             ("r3_gdist1g_chunks_of_1024", lambda: pair(patch(S, "gdist1g", gdist1g_chunked), patch(E, "gdist1g", gdist1g_chunked))),
@@ -2090,7 +2494,7 @@ class C11(Prop):
                                                                   patch(E, "vrnt_genpos", mk_genpos_setter_sorted(E)))),
         ]
 
-        return round3 + [
+        return round4 + round3 + [
             ("prune_spacing_doubled", lambda: patch(E, "prune", prune_spacing_doubled)),
             ("build_spline_ignores_kind", lambda: both(patch(S, "build_spline", mk_build_linear_only(S)),
                                                        patch(E, "build_spline", mk_build_linear_only(E)))),
@@ -2105,10 +2509,8 @@ class C11(Prop):
             ("interp_xoprob_keeps_existing_genpos", lambda: patch(D, "interp_xoprob", xoprob_keeps_existing_genpos)),
             ("interp_xoprob_keeps_existing_xoprob", lambda: patch(D, "interp_xoprob", xoprob_keeps_existing_xoprob)),
             ("interp_genpos_keeps_existing", lambda: patch(D, "interp_genpos", genpos_keeps_existing)),
-            ("haldane_exp_minus_d", lambda: patch(H, "mapfn", hald_exp_d)),
-            ("haldane_inverse_without_half", lambda: patch(H, "invmapfn", hald_inv_nofactor)),
-            ("kosambi_tanh_d", lambda: patch(K, "mapfn", kos_tanh_d)),
-            ("kosambi_inverse_arctan", lambda: patch(K, "invmapfn", kos_inv_tan)),
+            ("mapfn_exp_minus_d_tanh_d", lambda: both(patch(H, "mapfn", hald_exp_d), patch(K, "mapfn", kos_tanh_d))),
+            ("invmapfn_without_half_arctan", lambda: both(patch(H, "invmapfn", hald_inv_nofactor), patch(K, "invmapfn", kos_inv_tan))),
             ("gdist1g_no_inf_at_run_starts", lambda: both(patch(S, "gdist1g", gdist1g_noinf),
                                                           patch(E, "gdist1g", gdist1g_noinf))),
             ("gdist2g_without_abs", lambda: both(patch(S, "gdist2g", gdist2g_noabs), patch(E, "gdist2g", gdist2g_noabs))),
